@@ -636,10 +636,11 @@ func (a *Agent) AddRequest(job Job) []Job {
 	a.JobMtx.Lock()
 	defer a.JobMtx.Unlock()
 
-	// relay traffic the teamserver queues itself (socks and port forward data) carries no
-	// RequestID and is answered, if at all, by commands that are accepted anyway. nothing
-	// would ever retire such an entry, and it would make RequestID 0 valid for every command
-	if job.RequestID == 0 && (job.Command == COMMAND_SOCKET || job.Command == COMMAND_PIVOT) {
+	// relay traffic the teamserver queues itself (socks and port forward data) and the raw
+	// tasks a 3rd party service queues carry no RequestID, and no operator waits for an answer
+	// under one. nothing would ever retire such an entry, and it would make RequestID 0 valid
+	// for every command
+	if job.RequestID == 0 && (job.Command == COMMAND_SOCKET || job.Command == COMMAND_PIVOT || job.Command == 0) {
 		return a.Tasks
 	}
 
